@@ -8,6 +8,7 @@ import MambaVerif.Model.Ty
 import MambaVerif.Model.Range
 import MambaVerif.Props.C02
 import MambaVerif.Model.Imports
+import MambaVerif.Model.ClassOrder
 
 open MV
 
@@ -50,6 +51,23 @@ def handle (mode : String) (payload : String) : String :=
         hexOfBytes (renderToks ts).toUTF8 ++ "\t" ++ parsed
       | none => "bad core"
     | none => "bad sexp"
+  | "classorder" =>
+    -- payload: `<newinit 0|1> kind:name ...` (kind v|f|i|o, in body order) -> emitted member names
+    match (payload.splitOn " ").filter (· != "") with
+    | ni :: ms =>
+      let members := ms.zipIdx.filterMap fun (t, i) =>
+        match t.splitOn ":" with
+        | [k, n] =>
+          let kind := if k == "v" then some MKind.var else if k == "f" then some MKind.fn
+            else if k == "i" then some MKind.init else if k == "o" then some MKind.other else none
+          kind.map fun kd => (⟨i, kd, n⟩ : Member)
+        | _ => none
+      let es := entries members (ni == "1")
+      -- the result must not depend on the storage order: emit from two different storage orders
+      let a := (emitted es).map (·.m.name)
+      let b := (emitted es.reverse).map (·.m.name)
+      if a == b then " ".intercalate a else "ORDER-DEPENDENT " ++ " ".intercalate a ++ " / " ++ " ".intercalate b
+    | [] => "bad payload"
   | "imports" =>
     let ops := (payload.splitOn " ").filter (· != "") |>.map fun o =>
       match o.splitOn ":" with
